@@ -91,9 +91,7 @@ class ClassTable:
         return b in self.ancestors(a)
 
     def cid(self, name: str) -> int:
-        if name not in self.ids:
-            self.ids[name] = 1000 + len(self.ids)
-        return self.ids[name]
+        return VV.cid(name)
 
     def all_known(self):
         out = set(self.ext)
@@ -103,7 +101,7 @@ class ClassTable:
         return out
 
 
-typ = z3.Function("typ", IntS, IntS)  # dynamic class id of an object reference
+typ = VV.typ
 
 
 # ------------------------------------------------------------------------------
@@ -208,10 +206,119 @@ class Contract:
         """obligations at an event emitted while verifying this function"""
         return []
 
-    def apply(self, eng, st, self_v, args, kwargs, node):
-        """Effect of a call under this contract (modular use). Default: assert requires,
-        havoc nothing, return fresh result of result_kind. Override for richer behaviour."""
-        raise Unsupported(f"contract {self.key} has no call semantics (apply)")
+    modifies = ()  # heap keys the function may change (havocked at call sites)
+    call_raises = None  # exception classes a call may raise (default: self.raises minus implicit ones)
+
+    def checks(self, c):
+        """verify-only postconditions (may talk about the trace of this function's own execution)"""
+        return []
+
+    def exc_checks(self, c, exc):
+        return []
+
+    def apply(self, it, st, self_v, args, kwargs, node):
+        """Modular use of this contract at a call site: check requires, pick an outcome,
+        havoc the frame, assume the (exceptional) postcondition."""
+        eng = it.eng
+        fi = eng.repo.func(eng.tree_name(self.key))
+        if fi is None:
+            raise Unsupported(f"{self.key}: function missing in tree")
+        from .interp import Interp
+
+        sub = Interp(eng, fi, depth=it.depth + 1)
+        env = it.bind_args(st, fi, self_v, args, kwargs, node, sub)
+        cargs = {}
+        for name, v in env.items():
+            if name == "self":
+                continue
+            kind = self.params.get(name)
+            if kind and not kind.endswith("!nonnull"):
+                try:
+                    v = eng.coerce(st, v, kind)
+                except Unsupported:
+                    pass
+            cargs[name] = v
+        suspends = self.suspends if self.suspends is not None else fi.is_async
+        label = f"call:{self.key.rsplit('.', 2)[-2]}.{self.key.rsplit('.', 1)[-1]}@{getattr(node, 'lineno', 0)}"
+        if suspends and eng.tree == "async":
+            it.suspend(st, label)
+        c = Ctx(eng, st, fi, cargs, st.snapshot_heap(), self_v)
+        c.interp = it
+        c.at_call = True
+        for lab, cond in self.requires(c):
+            eng.oblige(st, f"{self.key.rsplit('.', 1)[-1]}.requires.{lab}", cond, props=self.props, kind="call-pre", extra={"site": it.site(node)})
+        raises = list(self.call_raises if self.call_raises is not None else (self.raises or []))
+        if eng.tree != "async" or st.shield > 0 or not suspends:
+            raises = [r for r in raises if r != "Cancelled"]
+        names = ["returns"] + [r.rsplit(".", 1)[-1] for r in raises]
+        k = eng.choose(st, len(names), label, names)
+        old = st.snapshot_heap()
+        if self.modifies:
+            eng.havoc_heap(st, keys=set(self.modifies), keep_local=False)
+        c.old_heap = old
+        if k == 0:
+            if self.result_kind:
+                res = eng.fresh(st, self.result_kind, "ret")
+                if isinstance(res, VRef):
+                    eng.assume_alive(st, res)
+            else:
+                res = NONE
+            c.result = res
+            rb = getattr(self, "result_builder", None)
+            if rb is not None:
+                c.result = res = rb(c)
+            for lab, props, goal in self.ensures(c):
+                eng.assume(st, eng.z_bool(goal))
+            if suspends and eng.tree == "async" and getattr(self, "interfere_after", True):
+                pass
+            return res
+        exc = VExc(raises[k - 1], tag={"from": label})
+        c.exc = exc
+        for lab, props, goal in self.exc_ensures(c, exc):
+            eng.assume(st, eng.z_bool(goal))
+        st.log.append(f"raise {exc.cls} (from {label})")
+        raise PyRaise(exc)
+
+
+class GeneratorContract(Contract):
+    """Contract of a generator function.  At call sites the call returns an iterator whose
+    every step either yields a fresh item (event 'iter.item'), ends, or raises."""
+
+    item_kind = "bytes"
+
+    def item_facts(self, c, item):
+        return []
+
+    def apply(self, it, st, self_v, args, kwargs, node):
+        from .registry import IterHandler
+
+        eng = it.eng
+        contract = self
+        fi = eng.repo.func(eng.tree_name(self.key))
+        suspends = fi.is_async if fi is not None else True
+
+        class H(IterHandler):
+            def next(self_h, it_, st_):
+                label = f"next:{contract.key.rsplit('.', 1)[-1]}"
+                if suspends and eng.tree == "async":
+                    it_.suspend(st_, label)
+                raises = [r for r in (contract.call_raises if contract.call_raises is not None else (contract.raises or [])) if r != "GeneratorExit"]
+                if eng.tree != "async" or st_.shield > 0:
+                    raises = [r for r in raises if r != "Cancelled"]
+                names = ["item", "exhausted"] + [r.rsplit(".", 1)[-1] for r in raises]
+                k = eng.choose(st_, len(names), label, names)
+                if contract.modifies:
+                    eng.havoc_heap(st_, keys=set(contract.modifies), keep_local=False)
+                if k == 0:
+                    x = eng.fresh(st_, contract.item_kind, "item")
+                    it_.emit(st_, "iter.item", None, source=contract.key, value=x)
+                    return x
+                if k == 1:
+                    it_.emit(st_, "iter.exhausted", None, source=contract.key)
+                    return None
+                eng.raise_(st_, raises[k - 2], tag={"from": label})
+
+        return VGen("repo-generator", H())
 
 
 # ------------------------------------------------------------------------------
@@ -243,6 +350,18 @@ class Ctx:
 
     def events(self, name):
         return [e for e in self.st.trace if e.name == name]
+
+    def since_cut(self, names=None):
+        out = []
+        for e in self.st.trace:
+            if e.name == "loop_cut":
+                out = []
+            elif names is None or e.name in names:
+                out.append(e)
+        return out
+
+    def field(self, ref, key, heap=None):
+        return self.eng.heap_read(self.st, ref, key, heap=heap)
 
 
 # ------------------------------------------------------------------------------
@@ -356,6 +475,8 @@ class Engine:
     def oblige(self, st: State, label: str, goal, props=(), kind="post", func=None, extra=None):
         func = func or (self.cur_fi.key if self.cur_fi else "?")
         canon_func = self.canon_func_key(func)
+        if self.cur_variant:
+            label = f"{label}@{self.cur_variant}"
         oid = f"{canon_func}:{kind}:{label}"
         if isinstance(goal, bool):
             goal = z3.BoolVal(goal)
@@ -501,6 +622,10 @@ class Engine:
                 return VRef(ref_of_val(v.t), kind[4:])
         if kind == "val":
             return self.to_val(st, v)
+        if isinstance(v, VOpt) and not kind.startswith("opt:"):
+            if self.branch(st, v.none, "none-where-value-needed"):
+                self.raise_(st, "TypeError", tag={"why": "None used where a value is needed"})
+            return self.coerce(st, v.val, kind)
         if kind == "real":
             if isinstance(v, VReal):
                 return v
@@ -597,9 +722,12 @@ class Engine:
 
     def unbox(self, st, v: V):
         if isinstance(v, VVal):
-            for t, pv in st.ghost.get("boxed", []):
-                if z3.eq(t, v.t):
-                    return pv
+            boxed = st.ghost.get("boxed", [])
+            if boxed:
+                vt = z3.simplify(v.t)
+                for t, pv in boxed:
+                    if z3.eq(t, v.t) or z3.eq(t, vt):
+                        return pv
         return v
 
     def list_to_seq(self, st, v: VList, elem: str) -> VSeq:
@@ -753,10 +881,27 @@ class Engine:
         self.cur_fi = fi
         self.cur_contract = contract
         max_paths = max_paths or contract.max_paths
-        work = [[]]
         npaths = 0
         exits = {"normal": 0, "raise": 0, "cut": 0}
         t0 = time.time()
+        variants = getattr(contract, "variants", None) or [(None, {})]
+        for vname, vparams in variants:
+            self.cur_variant = vname
+            self.cur_variant_params = vparams
+            self._verify_variant(fi, contract, max_paths, exits)
+            npaths += self._last_npaths
+        self.cur_variant = None
+        self.stats["paths"] += npaths
+        return {"paths": npaths, "exits": exits, "wall_s": time.time() - t0}
+
+    cur_variant = None
+    cur_variant_params: dict = {}
+
+    def _verify_variant(self, fi, contract, max_paths, exits):
+        from .interp import Interp
+
+        work = [[]]
+        npaths = 0
         while work:
             prefix = work.pop()
             npaths += 1
@@ -777,8 +922,7 @@ class Engine:
                 c, n, _lab = trail[i]
                 for alt in range(c + 1, n):
                     work.append([t[0] for t in trail[:i]] + [alt])
-        self.stats["paths"] += npaths
-        return {"paths": npaths, "exits": exits, "wall_s": time.time() - t0}
+        self._last_npaths = npaths
 
 
 class VHeapDict(V):
